@@ -363,7 +363,7 @@ fn check_fieldnorm_n(ctx: &mut Ctx, av: &Avail, n: u32) {
     }
 }
 
-fn real_postings_bytes(opt: Opt, docs: &[u32], tfs: &[u32]) -> Vec<u8> {
+pub(crate) fn real_postings_bytes(opt: Opt, docs: &[u32], tfs: &[u32]) -> Vec<u8> {
     let mut ser = PostingsSerializer::new(0.0, opt.real(), None);
     ser.new_term(docs.len() as u32, true);
     for (d, t) in docs.iter().zip(tfs) {
@@ -392,7 +392,7 @@ fn open_real(opt: Opt, requested: Opt, n: u32, bytes: &[u8], positions: Option<V
     c07_segment_postings(b, positions).map_err(|e| e.to_string())
 }
 
-fn gen_posting_list(rng: &mut Rng) -> (Vec<u32>, Vec<u32>, String) {
+pub(crate) fn gen_posting_list(rng: &mut Rng) -> (Vec<u32>, Vec<u32>, String) {
     let n = match rng.below(14) {
         0 => 0usize,
         1 => 1,
@@ -1113,6 +1113,20 @@ fn check_field(
             let req = if ct.is_empty() { format!("C07 invert {}", spec.opt.name()) } else { format!("C07 invert {} {ct}", spec.opt.name()) };
             let resp = ctx.model.ask(&req);
             ctx.report.count("model:invert-requests");
+            // the modelled indexing pipeline (recorders -> serializer -> decoder) on the same corpus
+            if exp.total_tokens <= 1200 {
+                let preq = req.replacen("C07 invert", "C07 pipeline", 1);
+                let presp = ctx.model.ask(&preq);
+                if presp == "bad-op" {
+                    ctx.report.count("model:unavailable:pipeline");
+                    ctx.report.violation("model", "C07:model-unavailable", "the Lean driver answers bad-op for pipeline".into(), cj(&[]));
+                } else {
+                    ctx.report.count("model:pipeline-requests");
+                    if presp != resp {
+                        ctx.report.violation("model", "C07:model-pipeline", format!("field {} ({}, {}): modelled pipeline {} differs from invert {}", spec.name, spec.kind.name(), spec.opt.name(), short(&presp), short(&resp)), cj(&[]));
+                    }
+                }
+            }
             let parts: Vec<&str> = resp.split('|').collect();
             if parts.len() != 3 {
                 ctx.report.violation("model", "C07:model-invert", format!("field {}: model answered {}", spec.name, short(&resp)), cj(&[]));
